@@ -24,6 +24,7 @@ import (
 	"runtime/metrics"
 	"sort"
 	"strings"
+	"syscall"
 	"time"
 
 	"github.com/TarsCloud/TarsGo/tars"
@@ -320,6 +321,15 @@ func panicSite(stack string) string {
 	return "unknown"
 }
 
+// procCPU returns the CPU time (user + system) this process has consumed so far.
+func procCPU() time.Duration {
+	var ru syscall.Rusage
+	if syscall.Getrusage(syscall.RUSAGE_SELF, &ru) != nil {
+		return 0
+	}
+	return time.Duration(ru.Utime.Nano() + ru.Stime.Nano())
+}
+
 type nopDispatch struct{}
 
 func (nopDispatch) Dispatch(ctx context.Context, imp interface{}, req *requestf.RequestPacket, rsp *requestf.ResponsePacket, wc bool) error {
@@ -335,7 +345,7 @@ func runCase(rep reporter, c *hcase) {
 		return map[string]interface{}{"entry": c.entry, "mutation": c.kind, "what": c.what, "input_len": len(in), "input": hexClip(in)}
 	}
 	a0 := allocated()
-	t0 := time.Now()
+	t0 := procCPU()
 	func() {
 		defer func() {
 			if r := recover(); r != nil {
@@ -376,7 +386,9 @@ func runCase(rep reporter, c *hcase) {
 			_ = proto.InvokeTimeout(input)
 		}
 	}()
-	el := time.Since(t0)
+	// CPU time consumed by this (single-case-at-a-time) child process, not elapsed time: a loaded
+	// machine must not turn into a verdict
+	el := procCPU() - t0
 	da := allocated() - a0
 	rep.Eval(1)
 	if da > 64<<20 {
@@ -389,8 +401,8 @@ func runCase(rep reporter, c *hcase) {
 	}
 	if bound := time.Duration(5*float64(len(in))/(1<<20)*float64(time.Second)) + 5*time.Second; el > bound {
 		w := wit()
-		w["elapsed_s"], w["bound_s"] = el.Seconds(), bound.Seconds()
-		rep.Violation("cpu-blowup", c.entry+":"+c.kind, fmt.Sprintf("%s on %s took %v (bound %v)", c.entry, c.what, el, bound), w)
+		w["cpu_s"], w["bound_s"] = el.Seconds(), bound.Seconds()
+		rep.Violation("cpu-blowup", c.entry+":"+c.kind, fmt.Sprintf("%s on %s consumed %v of CPU (bound %v)", c.entry, c.what, el, bound), w)
 	}
 	if len(in) < 1<<16 {
 		rep.Distinct(c.entry + "|" + string(in))
